@@ -255,9 +255,11 @@ func (w *Filter) FlushAll(ctx context.Context) error {
 	if w.Broker == nil {
 		// no op... perhaps we should log this somehow in the future if the
 		// Filter adds a logger.  For now, we'll just drop all the events
-		// into the bit bucket to nowhere.
-		w.gated = nil
-		w.orderedGated = nil
+		// into the bit bucket to nowhere.  The containers are emptied, not
+		// set to nil: a concurrent Process initialises them before it releases
+		// the lock to expire old events, and relies on them afterwards.
+		w.gated = map[string]*gatedEvent{}
+		w.orderedGated = list.New()
 		return nil
 	}
 
